@@ -38,7 +38,7 @@ META = {
 def shards(tier):
     if tier == "quick":
         return [{"label": "inputs%d" % i, "n": 400} for i in range(14)]
-    return [{"label": "inputs%d" % i, "n": 5000} for i in range(16)]
+    return [{"label": "inputs%d" % i, "n": 40000} for i in range(16)]
 
 
 def cases(ctx):
